@@ -176,8 +176,19 @@ def _plain(rng, lo=1, hi=12):
     return "".join(rng.choice(PLAIN) for _ in range(rng.randint(lo, hi)))
 
 
+ALNUM = "abcdefghijklmnopqrstuvwxyzABCXYZ0123456789 "
+
+
+def _alnum(rng, lo=0, hi=8):
+    return "".join(rng.choice(ALNUM) for _ in range(rng.randint(lo, hi)))
+
+
 def gen_string(rng, cls):
-    a, b = _plain(rng, 0, 8), _plain(rng, 0, 8)
+    """One hostile feature per class; around it only letters, digits and spaces, so that the way an
+    unescaped rendering fails (not JSON at all / JSON that decodes to something else) is fixed by the class."""
+    a, b = _alnum(rng), _alnum(rng)
+    if cls == "string-json-injection":  # only used for scalar results: closes the string and adds a member
+        return a + '","injected":"' + b
     if cls == "string-plain":
         return _plain(rng)
     if cls == "string-empty":
@@ -211,6 +222,7 @@ STRING_CLASSES = [
     "string-astral",
 ]
 HOSTILE_CLASSES = {
+    "string-json-injection",
     "string-with-quote",
     "string-with-backslash",
     "string-with-backslash-escape-lookalike",
@@ -459,6 +471,10 @@ class Session:
                 f.transient += 1
                 self.liveness("timeout:%s" % cls)
                 return None
+            if resp.failure.startswith("connect:"):
+                # nobody listens any more: decided (once) by the liveness probes
+                self.liveness("connect-failure:%s" % cls)
+                return None
             sig = no_response_sig or ("no-response:%s" % cls)
             time.sleep(0.05)
             pan = self.panics()[self.panics_seen :]
@@ -489,14 +505,21 @@ class Session:
         n = self.workers + 4
         for round_ in range(3):
             bad = None
-            for _ in range(n):
+            for i in range(n):
                 f.probes += 1
-                resp = http_request(self.port, "GET", "/system/info")
+                # alternate a request that needs no workspace with one that takes the workspace lock
+                if i % 2 == 0:
+                    resp = http_request(self.port, "GET", "/system/info")
+                else:
+                    resp = http_request(self.port, "POST", "/evaluate/no-such-model-probe/D", b"{}", "text/plain")
                 ok = False
                 if not resp.failure:
                     try:
                         doc = strict_loads(resp.body)
-                        ok = isinstance(doc, dict) and isinstance(doc.get("data"), dict) and "name" in doc["data"]
+                        if i % 2 == 0:
+                            ok = isinstance(doc, dict) and isinstance(doc.get("data"), dict) and "name" in doc["data"]
+                        else:
+                            ok = isinstance(doc, dict) and isinstance(doc.get("errors"), list) and len(doc["errors"]) > 0
                     except NotStrictJson:
                         ok = False
                 if not ok:
@@ -507,7 +530,7 @@ class Session:
                     f.transient += 1
                 return True
             time.sleep(0.2)
-        f.violation("service-stopped-answering:after-%s" % after_cls, "probe GET /system/info not answered in three rounds of %d fresh connections: %s" % (n, bad.brief()), self.log + [rq("GET", "/system/info")], "a JSON answer within %ds" % TIMEOUT, bad.brief())
+        f.violation("service-stopped-answering:after-%s" % after_cls, "valid probe requests (GET /system/info, POST /evaluate of an unknown model) not answered in three rounds of %d fresh connections: %s" % (n, bad.brief()), self.log + [rq("GET", "/system/info"), rq("POST", "/evaluate/no-such-model-probe/D", "{}", ctype="text/plain")], "a JSON answer within %ds" % TIMEOUT, bad.brief())
         self.dead = True
         return False
 
@@ -635,6 +658,8 @@ class Session:
         scls = rng.choice(STRING_CLASSES)
         ncls = rng.choice(NUMBER_CLASSES)
         if pick < 0.34:
+            if rng.random() < 0.1:
+                scls = "string-json-injection"
             dec, cls = "EchoS", scls
         elif pick < 0.52:
             dec, cls = "EchoN", ncls
@@ -1005,7 +1030,7 @@ class Pool:
 def plan(tier):
     if tier == "quick":
         return {"histories": 96, "len": (20, 60), "servers": 16, "max_seconds": 600}
-    return {"histories": 640, "len": (20, 200), "servers": 16, "max_seconds": 3000}
+    return {"histories": 1600, "len": (20, 200), "servers": 16, "max_seconds": 3000}
 
 
 def run(rep, tier, seed):
